@@ -127,6 +127,9 @@ def args(draw, cmd, full_width=False, all_optional=None):
                 a["data"] = draw(payload(n))
         else:
             n = bs * a["tl"]
+            if a.get("wrprotect") and draw(st.booleans()):
+                # protection information travels with the data: tl blocks of blocksize + 8 bytes
+                n = (bs + 8) * a["tl"]
             a["data"] = draw(payload(n))
     if fam.startswith("atapassthrough"):
         a.update(draw(ata_args(cmd, keep, full_width)))
